@@ -42,3 +42,25 @@ def pad_align(intf, pad, data):
     """set the write padding through the property, align, read the property back"""
     intf.write_padding = pad
     return [intf.data_align(data), intf.write_padding]
+
+
+class ScriptedIntf:
+    """A link whose read() returns the scripted chunks one by one, then b"" for ever."""
+
+    def __init__(self, chunks):
+        self.chunks = chunks
+
+    def read(self):
+        if not self.chunks:
+            return b""
+        c = self.chunks[0]
+        self.chunks = self.chunks[1:]
+        return c
+
+
+def read_frames(comm, calls):
+    """call comm._read_frame() `calls` times; the results and what is left buffered / unread"""
+    out = []
+    for _ in range(calls):
+        out.append(comm._read_frame())
+    return [out, comm._prev_read, comm._intf.chunks]
